@@ -96,6 +96,10 @@ def replay(case) -> dict:
             entries.append(("model_legacy_kw", engine.api(model_mask, tilt_range=(d0, d1))[1]))
         mdl, mm = engine.api(model_mask, tilt=tm)
         entries.append(("model_object", mm))
+        from acryo.tilt import UnionAxes
+
+        entries.append(("union_of_one", engine.api(UnionAxes([tm]).create_mask, R, shape)))
+        entries.append(("union_of_same_twice", engine.api(UnionAxes([tm, single_axis((d0, d1), axis=cfg["axis"])]).create_mask, R, shape)))
         for name, got in entries:
             if name == "apply_mask":
                 # mask_missing_wedge on a spectrum: kept bins unchanged, dropped bins zero
@@ -109,8 +113,14 @@ def replay(case) -> dict:
             _cmp(desc, name, got, exp, fails)
             _sym(desc, name, got, shape, fails)
     elif cfg["kind"] == "none":
+        from acryo.tilt import UnionAxes
+
+        # a union keeps every bin that ANY member keeps: with a no-wedge member it keeps everything (Wedge.tla: Union2(1, b) = 1)
         for name, got in (("no_wedge", no_wedge().create_mask(R, shape)), ("single_axis_None", single_axis(None).create_mask(R, shape)),
-                          ("model_none", model_mask()[1])):
+                          ("model_none", model_mask()[1]),
+                          ("union_nowedge_first", engine.api(UnionAxes([no_wedge(), single_axis((d0, d1), "y")]).create_mask, R, shape)),
+                          ("union_nowedge_last", engine.api(UnionAxes([single_axis((d0, d1), "x"), no_wedge()]).create_mask, R, shape)),
+                          ("model_union_nowedge", model_mask(tilt=UnionAxes([no_wedge(), single_axis((d0, d1), "y")]))[1])):
             _cmp(desc, name, got, exp, fails)
     else:
         xp = case["xpair"]
